@@ -293,6 +293,7 @@ def main():
             'known_findings_observed': [k['site'] for k, _ in seen_known.values()],
             'unreproduced_deaths': tot('unreproduced_deaths'),
             'binaries': [{'cfg': s['cfg'], 'env': s['env'], 'cases': s['cases'], 'cases_done': s['cases_done'], 'wall_s': s['wall_s']} for s in stats_list],
+            'slowest_cases': sum((s.get('slowest_cases', []) for s in stats_list), []),
             'explanation': spec.get('explanation', ''),
         },
         'assumptions': spec.get('assumptions', []),
